@@ -397,6 +397,51 @@ def _unconditional(n, blk):
     return False
 
 
+# ---- R12.15 implementation-defined choices on which the host compiler and chibicc differ
+_REL = ('<', '<=', '>', '>=')
+_WIDE = ('long', 'unsigned long', 'long long', 'unsigned long long', 'int64_t', 'uint64_t', 'size_t', 'ssize_t', 'intptr_t', 'uintptr_t', 'ptrdiff_t', 'double', 'float', 'long double')
+
+
+def _enum_operand(n):
+    s = n.strip()
+    for t in (s.dtype or '', s.type or ''):
+        t = t.replace('const ', '').replace('volatile ', '').strip()
+        if t.startswith('enum ') or t in n.unit.enum_types:
+            return True
+    return False
+
+
+def scan_impl_defined(u):
+    """the type of an enumeration is implementation-defined (C11 6.7.2.2p4): gcc/clang take unsigned int when no enumerator is negative, chibicc
+    always int.  `a - b`, `-a`, `~a` on enumerated operands is 4294967295 or -1 accordingly; the difference shows where that value is compared
+    relationally, divided, shifted right or widened to 64 bits."""
+    for fname, fd in u.functions.items():
+        for n in fd.walk():
+            if not ((n.kind == 'BinaryOperator' and n.opcode == '-') or (n.kind == 'UnaryOperator' and n.opcode in ('-', '~'))):
+                continue
+            if not any(_enum_operand(o) for o in n.inner):
+                continue
+            if (n.dtype or n.type or '') not in ('unsigned int', 'unsigned'):
+                continue        # the host computes it as a signed int (or wider) already: same as chibicc
+            cur, par = n, n.parent
+            hit = None
+            while par is not None:
+                if par.kind == 'ParenExpr':
+                    cur, par = par, par.parent; continue
+                if par.kind in ('ImplicitCastExpr', 'CStyleCastExpr'):
+                    t = (par.dtype or par.type or '').replace('const ', '').strip()
+                    if t in _WIDE:
+                        hit = 'widened to %s' % t; break
+                    cur, par = par, par.parent; continue
+                if par.kind == 'BinaryOperator' and par.opcode in _REL + ('/', '%', '>>'):
+                    hit = 'operand of `%s`' % par.opcode
+                break
+            if hit:
+                yield (fname, 'enum-signedness', n,
+                       '%s computes `%s` on an operand of enumerated type and uses the result as %s: the host compiler gives the enumeration the type unsigned int (no negative enumerator), '
+                       'chibicc gives it int, so a difference below zero is 4294967295 in the reference build and -1 in the self-compiled compiler (C11 6.7.2.2p4: implementation-defined)' % (fname, n.src(), hit))
+
+
 # --------------------------------------------------------------------- canary ---
 # function in the canary -> (rule, scanner name, construct prefix that must be reported)
 CANARY_EXPECT = [
@@ -421,9 +466,10 @@ CANARY_EXPECT = [
     ('bad_self_discard', 'R12.5', 'selfapp', 'discarded-long-double'),
     ('bad_self_chain', 'R12.5', 'selfapp', 'long-double-assignment-value-used'),
     ('bad_union_pun', 'R12.13', 'union_pun', 'union-read-u.w-uninitialised'),
+    ('bad_enum_range', 'R12.15', 'impl_defined', 'enum-signedness'),
 ]
 
-CANARY_SILENT = ('good_counter', 'good_print', 'file_exists', 'good_ld_assign', 'good_union_pun')
+CANARY_SILENT = ('good_counter', 'good_print', 'file_exists', 'good_ld_assign', 'good_union_pun', 'good_enum_index')
 
 
 def load_canary(P):
@@ -457,6 +503,7 @@ def run_canary(P, rep):
         'counters': [(f, c) for (f, c, n, m) in scan_counters(cu) if counter_bad(m)],
         'selfapp': [(f, c) for (f, c, n, m) in scan_selfapp(cu)],
         'union_pun': [(f, c) for (f, c, n, m) in scan_union_pun(cu) if not c.startswith('+')],
+        'impl_defined': [(f, c) for (f, c, n, m) in scan_impl_defined(cu)],
     }
     for (fn, rule, sc, construct) in CANARY_EXPECT:
         if (fn, construct) in got[sc]:
@@ -467,7 +514,7 @@ def run_canary(P, rep):
     for sc, lst in got.items():
         for (f, c) in lst:
             if f in CANARY_SILENT:
-                rep.undecided('R12.1' if sc in ('sources', 'time_flow') else ('R12.2' if sc in ('format', 'ptr2int') else ('R12.3' if sc == 'buckets' else ('R12.5' if sc == 'selfapp' else ('R12.13' if sc == 'union_pun' else 'R12.4')))),
+                rep.undecided('R12.1' if sc in ('sources', 'time_flow') else ('R12.2' if sc in ('format', 'ptr2int') else ('R12.3' if sc == 'buckets' else ('R12.5' if sc == 'selfapp' else ('R12.13' if sc == 'union_pun' else ('R12.15' if sc == 'impl_defined' else 'R12.4'))))),
                               'canaries/c12_nondeterminism.c:%s:false-alarm-%s' % (f, c), 'the %s scanner flags the benign canary function %s (%s)' % (sc, f, c))
 
 
@@ -590,6 +637,14 @@ def r1213(P, rep, tier):
                 rep.undecided('R12.13', key, msg, where='%s:%d' % (u.name, node.line))
             else:
                 rep.ob('R12.13', key, construct.startswith('+'), msg, where='%s:%d' % (u.name, node.line))
+    rep.rule('R12.15', 'chibicc\'s own sources do not depend on the signedness of an enumerated type (implementation-defined; unsigned int under gcc/clang, int under chibicc): no difference, negation or complement of enumerated operands is compared relationally, divided, shifted right or widened', floor=8)
+    for un in P.unit_names:
+        u = P.unit(un)
+        hits = list(scan_impl_defined(u))
+        for (fname, construct, node, msg) in hits:
+            rep.ob('R12.15', '%s:%s:%s' % (u.name, fname, construct), False, msg, where='%s:%d' % (u.name, node.line))
+        if not hits:
+            rep.ob('R12.15', '%s:no-dependence-on-enum-signedness' % u.name, True, '')
     rep.rule('R12.14', 'the constant evaluator hands its relocation out-parameter to at most one operand of an operator and folds every operator as C11 prescribes (same obligations as C07): two operands writing one label make the result depend on the evaluation order the host compiler chose, which differs between the reference build and the self-compiled one', floor=100)
     sub = Report('C07')
     c07.run(P, sub, tier)
